@@ -25,8 +25,10 @@ func main() {
 	tier := fs.String("tier", "quick", "quick|thorough")
 	keep := fs.Bool("keep", false, "keep SMT queries")
 	verbose := fs.Bool("v", false, "verbose")
+	wl := fs.Bool("writelock", false, "record the discharged obligation ids of this run in obligations.lock.json (reference tree only)")
 	fs.Parse(os.Args[2:])
 	keepQueries = *keep
+	writeLock = *wl
 	initSolver(*work, 16)
 	switch cmd {
 	case "ssa":
